@@ -937,6 +937,21 @@ def str_get(I, callee, args, st, n, fidx):
     return val(t, st)
 
 
+@prim("core::str::is_empty")
+def s_is_empty(I, callee, args, st, n, fidx):
+    """is_empty of a source slice between two cursor byte snapshots: decided by the consumed-char lower bound."""
+    a = args[0]
+    if isinstance(a, Term) and a.op == "str_slice" and len(a.args) == 3:
+        x, y = snap_of(a.args[1]), snap_of(a.args[2])
+        if x and y and x[0] == y[0] == "byte" and x[1] == y[1] == "main" and x[3] == 0 and y[3] == 0:
+            if x[2] == y[2]:
+                return val(Const("bool", True), st)
+            mc = st.fields.get("_minc", {})
+            if x[2] in mc and y[2] in mc and mc[y[2]] - mc[x[2]] >= 1:
+                return val(Const("bool", False), st)
+    return val(Term("ext:core::str::is_empty", (a,), "bool"), st)
+
+
 @prim("core::str::get")
 def s_get(I, callee, args, st, n, fidx):
     return str_get(I, callee, args, st, n, fidx)
